@@ -31,7 +31,8 @@ SPEC = {
                   "sequence of on/local/off leaves every path but <dir>/mode identical (C19_mode_cmd_frame), is a no-op "
                   "when Mode() already reads the requested mode (C19_mode_cmd_noop), otherwise succeeds and reads back as "
                   "(requested mode, today) for dates of years 0..9999 (C19_mode_cmd_sets, _file_roundtrip, _reports), today being the UTC "
-                  "date of the instant in every process time zone (C19_zone_independent, _mode_cmd_records_utc_date); the "
+                  "date of the instant in every process time zone (C19_zone_independent, _mode_cmd_records_utc_date) and wherever "
+                  "TMPDIR points, other file systems included (C19_tmpdir_independent, _mode_cmd_sets_any_tmpdir); the "
                   "single failing case (mode path is a directory) is characterised and inert (C19_mode_cmd_fails_iff, "
                   "_failure_inert); in mixed histories the mode path evolves as if only mode commands ran and all other "
                   "paths as if only cleans ran (C19_history_*). The executable oracle evaluated on the real snapshots "
